@@ -208,11 +208,14 @@ type remoteDelivery struct {
 	connections map[string]*mxConn
 
 	policies []module.DeliveryMXAuthPolicy
+	// Security policies are not applied for this message (TLS-Required: No).
+	secOverride bool
 }
 
 func (rt *Target) Start(ctx context.Context, msgMeta *module.MsgMetadata, mailFrom string) (module.Delivery, error) {
 	policies := make([]module.DeliveryMXAuthPolicy, 0, len(rt.policies))
-	if !(msgMeta.TLSRequireOverride && rt.allowSecOverride) {
+	secOverride := msgMeta.TLSRequireOverride && rt.allowSecOverride
+	if !secOverride {
 		for _, p := range rt.policies {
 			policies = append(policies, p.Start(msgMeta))
 		}
@@ -267,6 +270,7 @@ func (rt *Target) Start(ctx context.Context, msgMeta *module.MsgMetadata, mailFr
 		Log:         target.DeliveryLogger(rt.Log, msgMeta),
 		connections: map[string]*mxConn{},
 		policies:    policies,
+		secOverride: secOverride,
 	}, nil
 }
 
@@ -446,9 +450,12 @@ func (rd *remoteDelivery) Close() error {
 		rd.rt.limits.ReleaseDest(conn.domain)
 		conn.transactions++
 
-		if !conn.Usable() {
-			rd.Log.Debugf("disconnected %v from %s (errored=%v,transactions=%v,disconnected before=%v)",
-				conn.LocalAddr(), conn.ServerName(), conn.errored, conn.transactions, conn.C.Client() == nil)
+		// Connections opened with security policies disabled are not
+		// returned to the pool: a later message they apply to would be sent
+		// over a connection that was never checked against them.
+		if conn.secOverride || !conn.Usable() {
+			rd.Log.Debugf("disconnected %v from %s (errored=%v,transactions=%v,disconnected before=%v,sec_override=%v)",
+				conn.LocalAddr(), conn.ServerName(), conn.errored, conn.transactions, conn.C.Client() == nil, conn.secOverride)
 			conn.Close()
 		} else {
 			rd.Log.Debugf("returning connection %v for %s to pool", conn.LocalAddr(), conn.ServerName())
